@@ -1,6 +1,6 @@
 #!/usr/bin/env python3
 """Regenerates MANIFEST.json from props/*.json and tools/not_applicable.json."""
-import glob, json, os, subprocess
+import glob, json, os, re, subprocess
 ROOT = os.path.dirname(os.path.dirname(os.path.abspath(__file__)))
 props = [json.loads(l) for l in open(os.path.join(ROOT, "properties.jsonl"))]
 na = json.load(open(os.path.join(ROOT, "tools", "not_applicable.json")))
@@ -9,10 +9,27 @@ REPO = os.environ.get("VERIF_REPO", "/repo")
 log = subprocess.run(["git", "-C", REPO, "log", "--reverse", "--format=%h %s"], stdout=subprocess.PIPE, text=True).stdout
 hooks["source_commits"] = [l.split()[0] for l in log.splitlines() if l.split(" ", 1)[1].startswith("verif:")]
 # KNOWN_FINDINGS.txt = header + known/*.txt fragments
+picked = {}
+full = subprocess.run(["git", "-C", REPO, "log", "--format=%h%x00%B%x01"], stdout=subprocess.PIPE, text=True).stdout
+for rec in full.split("\x01"):
+    if "\x00" in rec:
+        h, msg = rec.strip().split("\x00", 1)
+        for m in re.findall(r"cherry picked from commit ([0-9a-f]{7,40})", msg):
+            picked[m[:7]] = h
 hdr = [l for l in open(os.path.join(ROOT, "KNOWN_FINDINGS.txt")) if l.startswith("#")]
 body = []
 for f in sorted(glob.glob(os.path.join(ROOT, "known", "C*.txt"))):
-    body += [l.rstrip("\n") + "\n" for l in open(f) if l.strip() and not l.startswith("#")]
+    for l in open(f):
+        if not l.strip() or l.startswith("#"):
+            continue
+        if l.startswith("fixed:"):
+            # builder-branch hashes -> hashes of the cherry-picked commits on /repo main
+            toks = l.split()
+            for i, t in enumerate(toks):
+                if re.fullmatch(r"[0-9a-f]{7,40}", t) and t[:7] in picked:
+                    toks[i] = picked[t[:7]]
+            l = " ".join(toks)
+        body.append(l.rstrip("\n") + "\n")
 open(os.path.join(ROOT, "KNOWN_FINDINGS.txt"), "w").write("".join(hdr) + "".join(body))
 checks, napp = [], []
 for p in props:
